@@ -14,6 +14,8 @@ pub struct CutFile {
     pub init: Option<Vec<u8>>,
     /// per track id (sorted): samples of the complete file
     pub full: Vec<(u32, Vec<Got>)>,
+    /// first cut position explored (cuts before it coincide with those of another file of the list)
+    pub from: usize,
 }
 
 fn read_all<R: std::io::Read + std::io::Seek>(r: &mut Mp4Reader<R>, upto: Option<&[(u32, Vec<Got>)]>) -> Vec<(u32, Vec<Got>)> {
@@ -38,6 +40,11 @@ fn read_all<R: std::io::Read + std::io::Seek>(r: &mut Mp4Reader<R>, upto: Option
 
 pub fn files(tier: Tier, seed: u64) -> Vec<CutFile> {
     let mut raw: Vec<(String, Vec<u8>, Option<Vec<u8>>)> = vec![];
+    let mut from_of: std::collections::HashMap<String, usize> = Default::default();
+    for (name, bytes, from) in crate::refmp4::kitchen::cut_last_box_variants() {
+        from_of.insert(name.clone(), from);
+        raw.push((name, bytes, None));
+    }
     raw.push(("mux:avc+aac (ftyp,mdat,moov)".into(), muxed_baseline(seed, &[Kind::Avc, Kind::Aac]), None));
     raw.push(("canned:minimal.mp4 (ftyp,moov,free,mdat)".into(), canned("minimal.mp4"), None));
     let mut frag = canned("minimal_init.mp4");
@@ -67,7 +74,8 @@ pub fn files(tier: Tier, seed: u64) -> Vec<CutFile> {
                     o => machinery_failure(&format!("{}: complete file does not open: {:?}", name, o.map(|r| r.map(|_| ()).map_err(|e| e.to_string())))),
                 }
             };
-            CutFile { name, bytes, init, full }
+            let from = from_of.get(&name).copied().unwrap_or(0);
+            CutFile { name, bytes, init, full, from }
         })
         .collect()
 }
@@ -82,7 +90,7 @@ impl CutJob {
         let files = files(tier, seed);
         let mut units = vec![];
         for (fi, f) in files.iter().enumerate() {
-            for c in 0..f.bytes.len() {
+            for c in f.from..f.bytes.len() {
                 units.push((fi, c));
             }
         }
@@ -188,8 +196,10 @@ pub fn run(tier: Tier, seed: u64) -> i32 {
     ev.set("evaluations", json!(g("evaluations")));
     ev.set("distinct_nontrivial", json!(g("nontrivial:opened_prefix")));
     ev.set("transitions", json!(g("transitions")));
-    ev.set("rule", json!("one case = one (file, cut position) pair, every cut 0..len of every file, each opened with size = cut; distinct by construction; non-trivial = the prefix still opens, so samples are actually compared with the complete file"));
-    ev.set("files", json!(job.files.iter().map(|f| json!({"name": f.name, "len": f.bytes.len(), "samples": f.full.iter().map(|(_, v)| v.len()).sum::<usize>()})).collect::<Vec<_>>()));
+    ev.set("rule", json!("one case = one (file, cut position) pair, every cut 0..len of every file (for the last-box variants of the movie-header-last file: every cut from the start of moov, the part before it being identical in all variants), each opened with size = cut; distinct by construction; non-trivial = the prefix still opens, so samples are actually compared with the complete file"));
+    let (variants, plain): (Vec<&CutFile>, Vec<&CutFile>) = job.files.iter().partition(|f| f.from > 0);
+    ev.set("files", json!(plain.iter().map(|f| json!({"name": f.name, "len": f.bytes.len(), "samples": f.full.iter().map(|(_, v)| v.len()).sum::<usize>()})).collect::<Vec<_>>()));
+    ev.set("last_box_variants", json!({"files": variants.len(), "what": "two-track movie-header-last file (ctts, stss, elst, co64, 3-run and 2-run stsc, iTunes metadata); one variant per box of moov, with that box moved to the very end of the file", "cuts_each": variants.first().map(|f| f.bytes.len() - f.from)}));
     ev.set("outcome_classes", Value::Object(res.counters.iter().map(|(k, v)| (k.clone(), json!(v))).collect()));
     ev.set("exhaustive", json!(!res.capped));
     ev.set("caps_hit", json!(if res.capped { vec!["wall cap"] } else { vec![] }));
